@@ -30,6 +30,7 @@ type c13mon struct {
 	mqttDisc    int // MQTT DISCONNECTs written so far
 	stalled     bool
 	unreachable bool
+	connecting  bool // a connect exchange is in progress
 }
 
 var c13causes = map[string]string{}
@@ -84,6 +85,12 @@ func (m *c13mon) After(g *gw.GW, ev string, sn []gw.SNOut, mq []gw.MQOut, setup 
 			}
 		}
 		m.prevState = g.H.VState().String()
+		m.connecting = false
+		for _, tx := range g.H.VTransactions() {
+			if strings.HasPrefix(tx, "typeCONNECT=") {
+				m.connecting = true
+			}
+		}
 		return vs
 	}
 	m.cause = name
@@ -112,7 +119,8 @@ func (m *c13mon) After(g *gw.GW, ev string, sn []gw.SNOut, mq []gw.MQOut, setup 
 		if mqDisc != 0 {
 			add("C14", "mqtt-disconnect-on-sleep", "DISCONNECT with a sleep duration made the gateway send MQTT DISCONNECT")
 		}
-		if g.Returned && !m.unreachable {
+		if g.Returned && !m.unreachable && !m.connecting {
+			// (a client in the middle of a connect exchange is not connected: its DISCONNECT(duration) is refused)
 			// (when the reply cannot be sent the session legitimately ends with that error)
 			add("C13", "sleep-ended-session", "DISCONNECT with a sleep duration ended the session")
 		}
@@ -166,7 +174,7 @@ func (m *c13mon) After(g *gw.GW, ev string, sn []gw.SNOut, mq []gw.MQOut, setup 
 }
 
 func (m *c13mon) Key() string {
-	return fmt.Sprintf("prev=%s out=%d d=%d cause=%s stalled=%t unreachable=%t", m.prevState, m.outstanding, m.depth, m.cause, m.stalled, m.unreachable)
+	return fmt.Sprintf("prev=%s out=%d d=%d cause=%s stalled=%t unreachable=%t connecting=%t", m.prevState, m.outstanding, m.depth, m.cause, m.stalled, m.unreachable, m.connecting)
 }
 func (m *c13mon) Class() string {
 	if m.cause != "" {
